@@ -30,6 +30,7 @@ type gen struct {
 	nextP int
 	tmo   []int
 	nvar  map[string]int
+	class string
 }
 
 func (g *gen) emit(t string) { g.toks = append(g.toks, t) }
@@ -115,9 +116,14 @@ func (g *gen) par(n int) {
 	g.emit("par:" + strings.Join(ts, "|"))
 }
 
+var defectVariant = map[string]bool{"hdr4": true, "hdr6": true, "fam4": true, "fam6": true, "tl4": true}
+
 func (g *gen) pickVariant(matching bool) *variant {
 	for {
 		v := &variants[g.rng.Intn(len(variants))]
+		if defectVariant[v.name] && !(g.class == "defect" && g.rng.Chance(70)) {
+			continue
+		}
 		if matching && !v.wakes && g.rng.Chance(80) {
 			continue
 		}
@@ -158,7 +164,7 @@ func (g *gen) frame(wantWake bool) {
 func (g *gen) snap() { g.settle(); g.emit("s") }
 
 func genScenario(rng *lib.Rand, class string, nvar map[string]int) scenario {
-	g := &gen{rng: rng, nvar: nvar}
+	g := &gen{rng: rng, nvar: nvar, class: class}
 	var next0 uint16
 	switch x := rng.Intn(100); {
 	case x < 55:
@@ -254,6 +260,8 @@ func generate(r *lib.Run, rng *lib.Rand) []scenario {
 			class = "fast"
 		case x < 60:
 			class = "fail"
+		case x < 75:
+			class = "defect"
 		}
 		scs = append(scs, genScenario(rng.Fork(), class, nvar))
 	}
